@@ -342,6 +342,62 @@ def _foreign_hrp_strings(rng, tier, hrps=None):
     return out
 
 
+_ALIASES = None
+
+
+def case_aliases():
+    """every non-ASCII, non-surrogate code point whose lower() / upper() / casefold() image is or contains a printable
+    ASCII character (KELVIN SIGN -> k, LONG S -> S, I WITH DOT -> i + U+0307, ligatures, sharp s, ...): [(char, ascii)]"""
+    global _ALIASES
+    if _ALIASES is None:
+        res = []
+        for cp in range(128, 0x110000):
+            if 0xD800 <= cp <= 0xDFFF:
+                continue
+            c = chr(cp)
+            seen = set()
+            for img in (c.lower(), c.upper(), c.casefold()):
+                for a in img:
+                    if 33 <= ord(a) <= 126 and a.lower() not in seen:
+                        seen.add(a.lower())
+                        res.append((c, a.lower()))
+        _ALIASES = res
+    return _ALIASES
+
+
+def _unicode_strings(rng, tier, base):
+    """valid lower- and upper-case strings with characters replaced by code points of the FULL unicode range: every case
+    alias of the replaced ASCII character (one position / all positions), random non-ASCII code points, 0..32 and 127"""
+    out = []
+    nbase = 3 if tier == "quick" else 12
+    picks = base[:: max(1, len(base) // nbase)][:nbase]
+    for hrp, s in picks:
+        for form in (s, s.upper()):
+            low = form.lower()
+            for c, a in case_aliases():
+                pos = [j for j in range(len(form)) if low[j] == a]
+                if pos:
+                    j = pos[-1]
+                    out.append((hrp, form[:j] + c + form[j + 1:]))
+                    out.append((hrp, "".join(c if k in pos else form[k] for k in range(len(form)))))
+                else:
+                    j = rng.randrange(len(form))
+                    out.append((hrp, form[:j] + c + form[j + 1:]))
+            for cp in list(range(0, 33)) + [127, 128, 159, 160, 255, 256, 0x2fff, 0xd7ff, 0xe000, 0xffff, 0x10000, 0x10ffff]:
+                j = rng.randrange(len(form))
+                out.append((hrp, form[:j] + chr(cp) + form[j + 1:]))
+            for _ in range(40 if tier == "quick" else 1500):
+                cp = rng.choice([rng.randrange(128, 0x800), rng.randrange(0x800, 0xD800), rng.randrange(0xE000, 0x110000)])
+                t = list(form)
+                for j in rng.sample(range(len(form)), rng.choice([1, 1, 2, 3])):
+                    t[j] = chr(cp)
+                out.append((hrp, "".join(t)))
+    for c, a in case_aliases():                              # in the caller's hrp as well
+        out.append(("b" + c, ref_bech32_string("b" + a, [1] + ref_to5(bytes(20)), M_CONST)))
+        out.append(("b" + a, ref_bech32_string("b" + a, [1] + ref_to5(bytes(20)), M_CONST).replace("b" + a, "b" + c, 1)))
+    return out
+
+
 def _bech_strings(rng, tier):
     """(hrp, string) pairs: valid, wrong constant, bad length / padding, case, corruptions, junk"""
     out = list(_foreign_hrp_strings(rng, tier))
@@ -404,6 +460,7 @@ def _bech_strings(rng, tier):
         out.append((hrp, _corrupt(rng, s, rng.choice([1, 2, 2, 3, 4, 5]), alpha)))
     for s in ["", "1", "a1", "a1qqqqq", "a1qqqqqq", "1qqqqqq", "11qqqqqq", "a" * 91, "a1" + "q" * 88, "a1" + "q" * 89]:
         out.append(("a", s))
+    out += _unicode_strings(rng, tier, base)
     return out
 
 
